@@ -106,13 +106,16 @@ def parseBatch? (fs : List String) : Option (List Op) :=
 
 /-- `softdel-fault <restore>`: keys/<name>/soft-delete (or soft-delete-restore) with a planned fault on its single Put.
 The handler sets the flag on the policy and calls `Persist`; with the Put failing, `Persist` rolls the key material back
-and the handler restores the flag (finding F52, repaired): the key is as it was — exactly a `config` request that
-changes nothing and fails at the same Put.  Without a pending fault the operation is outside the model. -/
+and the handler restores the flag (finding F52, repaired): the key is as it was — exactly a `Persist` of the unchanged
+minimum versions that fails at the same Put (`rawConfig` with the current values).  Without a pending fault, or without
+a key, the operation is outside the model. -/
 def softDelFault (st : St) : St × String :=
   if st.failPut = 0 then (st, "unmodelled")
-  else
-    let (st', out) := step st (.config none none none none none)
-    (st', showOut out)
+  else match st.pol with
+    | none => (st, "unmodelled")
+    | some p =>
+      let (st', out) := step st (.rawConfig p.minDec p.minEnc)
+      (st', showOut out)
 
 def stepLine (st : St) (fs : List String) : St × String :=
   match fs with
